@@ -342,6 +342,7 @@ class Emitter:
         emit_dircast(self)
         emit_layout(self)
         emit_fmt_triples(self)
+        emit_model_overloads(self)
         self._emit_pairs = lambda umods: emit_pairs_obligations(self, umods)
         # aggregate
         lines = ['-- GENERATED by emit_lean.py -- do not edit.']
@@ -576,6 +577,27 @@ def emit_fmt_triples(em):
     imports = ['PhQVerif.Core.Model'] + ['PhQVerif.Generated.%s' % x for x in sorted(mods)]
     emit_list_with_obligation(em, 'FmtTriples', 'Entry × Entry × Entry', rows, imports, 'Chk.SameFormula',
                               'SameFormula', chunk=300)
+
+
+def emit_model_overloads(em):
+    """For each virtual function of each model: every (argument format, base/direct) variant paired
+    with the [A=64,direct] variant, per model format. Same skeleton <=> same formula."""
+    rows, mods = [], set()
+    for e in em.model:
+        m = e['meta']
+        if m['kind'] not in ('model-virtual', 'model-string', 'model-type'):
+            continue
+        ref_id = re.sub(r'\[A=\d+,(base|direct)\]$', '[A=64,direct]', e['id'])
+        ref_id = re.sub(r'\[(base|direct)\]$', '[direct]', ref_id)
+        ref = em.by_id.get(ref_id)
+        if ref is None or ref is e:
+            continue
+        for fmt in (32, 64, 80):
+            rows.append('(f%d.%s, f64.%s, f%d.%s)' % (fmt, ident(e['id']), ident(ref_id), fmt, ident(e['id'])))
+        mods.add('M_' + m['cls'][6:])
+    imports = ['PhQVerif.Core.Model'] + ['PhQVerif.Generated.%s' % x for x in sorted(mods)]
+    emit_list_with_obligation(em, 'ModelOverloads', 'Entry × Entry × Entry', rows, imports, 'Chk.SameFormula',
+                              'ModelOverloads', chunk=100)
 
 
 def emit_dircast(em):
